@@ -62,6 +62,10 @@ def space(tier, seed):
     for al in ([(F('a', 1), ('lit', 'Z'))], [(F('a', 2), ('NU',))], [(F('a', 1), F('b', 2)), (F('a', 2), ('bNR',))]):
         for jt in ('INNER JOIN', 'LEFT JOIN'):
             qs.append(('join_empty_partner', {'kind': 'update', 'assign': al, 'where': None, 'join': {'type': jt, 'keys': [(('NR',), ('bNR',))]}}))
+    for al in ([(F('a', 3), F('b', 3))], [(F('a', 1), ('lit', 'Z'))], [(F('a', 3), ('NU',))]):
+        for jt in ('INNER JOIN', 'LEFT JOIN'):
+            for keys in ([(F('a', 1), F('b', 1)), (F('a', 2), F('b', 2))], [(('NR',), F('b', 1)), (F('a', 2), F('b', 2))]):
+                qs.append(('join_two_keys', {'kind': 'update', 'assign': al, 'where': None, 'join': {'type': jt, 'keys': keys}}))
     nrows = [[k, m], [m, k], [k, None]]
     jrows = [[k], [m], [k, m], [m, k + ';' + m], []]
     Bs = [[], [[k, 'p']], [[k, 'p'], [k, 'q'], [m]], [[m, 'p', 'z'], [k]]]
@@ -171,14 +175,8 @@ def part_csv(sh, res):
         shutil.rmtree(scratch, ignore_errors=True)
 
 
-def run_shard(sh):
-    if sh.get('part') == 'csv':
-        res = core.Result()
-        part_csv(sh, res)
-        return res
-    res = core.Result()
-    sp_ = space(sh['tier'], sh['seed'])
-    maxrows = 3 if sh['tier'] == 'thorough' else 2
+def tables_and_Bs(sp_, maxrows):
+    """the A tables and B tables of every query kind of space() - shared with C06 and C19, which re-use this query space"""
     w6 = [['c%d' % i for i in range(1, 7)], ['d%d' % i for i in range(1, 7)], ['e%d' % i for i in range(1, 12)], ['f%d' % i for i in range(1, 6)]]
     tabs = {'wide': list(qcheck.tables_upto(w6, 2)) + [w6 * 3],
             'plain': list(qcheck.tables_upto(sp_['rows'], maxrows)) + [qcheck.long_table(sp_['rows'], 2)],
@@ -188,13 +186,29 @@ def run_shard(sh):
     # a header over ragged records: the first record fits the name list, later ones are shorter / longer
     first = [r for r in sp_['nrows'] if None not in r][0]
     tabs['named'] += [[list(first)] + T for T in qcheck.tables_upto([[first[0]], [], [first[1], first[0], 'extra']], 2) if T]
+    # two-part keys whose parts collide once glued together as text ('x|y' + 'z' vs 'x' + 'y|z'), '' vs None, the number 1 vs the text '1'
+    tabs['join_two_keys'] = list(qcheck.tables_upto([['x|y', 'z', '.'], ['x', 'y|z', '.'], ['x', '', '.'], ['1', 'x', '.'], ['x,y', 'z', '.']], 2))
+    Bsets = {'join': sp_['Bs'], 'join_empty_partner': [[[]], [[], ['q', 'p']], [['q', 'p'], []], [[], []]],
+             'join_two_keys': [[['x', 'y|z', 'P']], [['x|y', 'z', 'Q'], ['x', None, 'R']], [['1', 'x', 'S'], ['x', '', 'T']], [['x', 'y,z', 'U'], ['x,y', 'z', 'V']]]}
+    return tabs, Bsets
+
+
+def run_shard(sh):
+    if sh.get('part') == 'csv':
+        res = core.Result()
+        part_csv(sh, res)
+        return res
+    res = core.Result()
+    sp_ = space(sh['tier'], sh['seed'])
+    maxrows = 3 if sh['tier'] == 'thorough' else 2
+    tabs, Bsets = tables_and_Bs(sp_, maxrows)
     jscases = []
     for qi, (kind, q) in enumerate(sp_['qs'][sh['lo']:sh['hi']]):
         sp = refql.Spelling(update_set=(qi % 2 == 0))
         if qi % 5 == 4:
             sp = refql.Spelling(update_set=(qi % 2 == 0), list_sep=',      ', assign_eq='     =     ', inner_space='    ')     # runs of 4+ spaces around assignments
         text = refql.render(q, 'py', sp)
-        Blist = sp_['Bs'] if kind == 'join' else ([[[]], [[], ['q', 'p']], [['q', 'p'], []], [[], []]] if kind == 'join_empty_partner' else [None])
+        Blist = Bsets.get(kind, [None])
         # named slice: the same query text is run against both column orders of the header (a stale name -> position binding shows)
         for names in ([sp_['names'], sp_['names'][::-1]] if kind == 'named' else [None]):
           for B in Blist:
